@@ -33,7 +33,7 @@ check("C16",
       "for the pinned probe-directory variant (finding F5, repaired). pathlib parsing, canonical_path, "
       "get_sanitized_output_path, _sanitize_archive_arcname are tied to helpers.py/py7zr.py by an exhaustive stream over "
       "the property's component alphabet (<=5/6 components) + probe-path and Unicode names; the verdict of the real "
-      "function is compared with the Lean oracle on every name; writestr/writef/write/writeall exercised end to end.",
+      "function is compared with the Lean oracle on every name; writestr/writef/write/writeall exercised end to end. Round-h addition: the arcname helper is driven with pathlib.Path objects too (stream path.sanitize on the object's text), and the stored name of every accepted or sanitised name is judged directly (no root, no drive prefix, no climbing).",
       "Lean 4 proof (oracle equivalence by induction over components) + exhaustive differential correspondence + API exploration",
       "DESIGN.md §4 C16")
 
@@ -44,7 +44,7 @@ check("C19",
       "property is decided on the real command line: 'python -m py7zr' subprocesses for c/x/l/a/t over generated trees, "
       "every unit spelling, and intact/damaged/encrypted/unsupported/multi-folder archives with the expected status taken "
       "from ground truth (pristine members vs sequential in-memory extraction). Partial: argparse and interpreter exit "
-      "codes are runtime.",
+      "codes are runtime. Round-h addition: 'x --verbose' is part of the exit-status exploration; archive names with dots for 'c'.",
       "Lean 4 proof of the size-parser/exit-table logic + differential correspondence + subprocess exploration against ground truth",
       "DESIGN.md §4 C19")
 
@@ -180,7 +180,7 @@ check("C10",
       "Tied by the ls stream on real archives (ground truth for folders/coders from the independent reader). Listing "
       "calls are compared with what extraction delivers (sizes, CRCs, directory-ness), getinfo with/without slash and "
       "absent names, totals/blocks/archive size, over py7zr histories incl. mixed encrypted+plain sessions, reference-"
-      "writer layouts and fixtures.",
+      "writer layouts and fixtures. Round-h addition: the listing interfaces are compared inside write and append sessions as well, after every member-adding call (getinfo must find every name the session lists).",
       "Lean 4 proofs of the summary logic + differential correspondence + listing-vs-extraction exploration",
       "DESIGN.md §4 C10")
 
@@ -191,7 +191,7 @@ check("C09",
       "absent names ignored; recursive selection = target + members beneath it under the quantifier's prefix-freedom. "
       "Tied by the sel and rs streams. Explored on py7zr- and reference-written archives (solid, multi-folder, "
       "empty-stream files between data members): all subsets T for small archives, list/set, +/- '/', recursive, "
-      "directory and factory output, created paths = selected members + ancestors.",
+      "directory and factory output, created paths = selected members + ancestors. Round-h addition: stored (Copy) and LZMA2 solid folders whose members exceed the decoder's 1 MiB read-ahead, every subset of their members.",
       "Lean 4 proof (induction over folders/members) + differential correspondence + exhaustive-subset exploration",
       "DESIGN.md §4 C09")
 check("C11",
@@ -221,7 +221,7 @@ check("C04",
       "calculate_crc32 with several block sizes). Beyond that detection is probabilistic and is explored: all single-bit "
       "flips of small archives, overwrites, every truncation, bursts, block swaps, insert/remove/extend over py7zr and "
       "reference-writer archives (incl. a CRC-0 member, folder-CRC-only layout, AES, multi-folder); extraction outcome "
-      "compared with the pristine map and test()/testzip() checked for consistency on the same bytes.",
+      "compared with the pristine map and test()/testzip() checked for consistency on the same bytes. Round-h addition: the integrity entry points are also evaluated through testzip() with worker processes (mp=True) and through extractall() with a progress callback attached.",
       "Lean 4 proof of CRC-32 burst detection (linear-register invariant) + differential correspondence + exhaustive bit-flip exploration",
       "DESIGN.md §4 C04")
 
@@ -256,7 +256,7 @@ check("C15",
       "their sizes and CRCs — the failed source is never retried; counter-example theorem for the pinned tree (F7, "
       "repaired). Tied by the ws stream: real sessions with injected faults (missing source, dangling link, FIFO, "
       "rejected arcname, failing stream, EACCES on lstat, EIO on open, un-stat-able inner member of writeall) compared "
-      "call by call and member by member with the model; mid-read failures are held to the property's weaker clause.",
+      "call by call and member by member with the model; mid-read failures are held to the property's weaker clause. Round-h addition: trees whose failing file is preceded by files already archived by the same writeall() call; a session ended by the failed call's exception leaving the with-block.",
       "Lean 4 invariant proof over the write-session model + differential correspondence of fault-injected sessions",
       "DESIGN.md §4 C15")
 
@@ -318,7 +318,7 @@ check("C18",
       "extractall/extract(T), path/stream, factory/directory, scheduler-gated worker interleavings, eight handler "
       "behaviours incl. reporter held back until close) and replaying them through the model as a schedule; the "
       "property's clauses are also checked directly on every recording, incl. none-after-close for 1.3 s. Partial: the "
-      "1 s periodic update depends on wall-clock time (exercised with a slow sink, not enumerated).",
+      "1 s periodic update depends on wall-clock time (exercised with a slow sink, not enumerated). Round-h addition: trees with symbolic links (to a file, upward, to a directory) extracted to a directory with a callback, completely and selectively: the update events account for the link targets' bytes too; callback-less calls before callback extractions.",
       "Lean 4 proof over all interleavings of an event-queue model + differential correspondence of recorded callbacks + direct exploration",
       "DESIGN.md §4 C18")
 
